@@ -4,6 +4,7 @@
                       (bypass b) (no-simplify b) (no-eq-break b) (no-proof-search b)
                       (save none|"dir") (files <node>..))
        <node> = (file "name" "text") | (special "name") | (dir "name" <node>..)
+              | (link "name" (file "text")|special|dangling|loop) | (link "name" (dir <node>..))
      result   (exit0 (warnings "Kind"..) (files ("dir/name.p" "bytes")..)) | (error 1) | (panic) | (out-of-fuel)
    = the extracted [CliVerify.run_verify_tree] followed by [CliVerify.dir_state] (one entry per path, sorted).
    The implementation side (harness/src/ops/cliverify.rs) creates the trees, runs the real binary with
@@ -12,10 +13,16 @@ open Sexp
 open Conv
 open M.CliVerify
 
+(* the link kinds of `files_sort` (ops_files.ml), a link to a regular file carrying the text read through it *)
 let rec cnode = function
   | L [ A "file"; n; t ] -> CFile (str n, str t)
   | L [ A "special"; n ] -> CSpecial (str n)
   | L (A "dir" :: n :: cs) -> CDir (str n, List.map cnode cs)
+  | L [ A "link"; n; L [ A "file"; t ] ] -> CLink (str n, CTFile (str t))
+  | L [ A "link"; n; A "special" ] -> CLink (str n, CTSpecial)
+  | L [ A "link"; n; A "dangling" ] -> CLink (str n, CTDangling)
+  | L [ A "link"; n; A "loop" ] -> CLink (str n, CTLoop)
+  | L [ A "link"; n; L (A "dir" :: cs) ] -> CLinkDir (str n, List.map cnode cs)
   | e -> bad "node: %s" (to_string e)
 
 let one tag = function
